@@ -95,6 +95,9 @@ def _in_h1(f):
     return is_continuous(f.ufl_element())
 
 
+MISSING_ITEMS = set()  # what the last classify() call found unrestricted (type names; 'tower:<terminal type>')
+
+
 def classify(e):
     """Own traversal: (has_double, has_missing_side_dependent, restriction_above_nonterminal)."""
     from ufl.classes import (Argument, Coefficient, Constant, ConstantValue, FacetNormal, GeometricCellQuantity,
@@ -102,6 +105,7 @@ def classify(e):
                              SpatialCoordinate)
 
     double = missing = above = False
+    MISSING_ITEMS.clear()
     seen = set()
     stack = [(e, 0, False)]
     while stack:
@@ -130,11 +134,13 @@ def classify(e):
                     continue
                 if k + inside == 0:
                     missing = True
+                    MISSING_ITEMS.add("tower:" + type(o).__name__)
                 if k + inside >= 2:
                     double = True
                 continue
             if k == 0:
                 missing = True
+                MISSING_ITEMS.add("tower:operator")
             stack.append((n.ufl_operands[0], max(k, 1), True))
             continue
         if n._ufl_is_terminal_:
@@ -158,6 +164,7 @@ def classify(e):
                 dep = False
             if dep and k == 0:
                 missing = True
+                MISSING_ITEMS.add(type(n).__name__)
             continue
         for o in n.ufl_operands:
             stack.append((o, k, False))
@@ -212,6 +219,7 @@ def check_case(case):
         raise Discard("pre:" + type(ex).__name__)
     check_acyclic(e, "input")
     double, missing, above = classify(e)
+    missing_items = set(MISSING_ITEMS)
     default = {b.mesh: "+"} if case["mode"] == "default" else None
     must_raise = double or (missing and default is not None)
     labels = ["mode:" + case["mode"], "style:" + case["style"]] + (["lowered"] if case.get("lower") else [])
@@ -227,6 +235,12 @@ def check_case(case):
         raised = ex
     if must_raise:
         if raised is None:
+            if not double and case.get("lower") and missing_items == {"tower:SpatialCoordinate"}:
+                # known finding F26: after geometry lowering all cell geometry is ReferenceGrad(x); x is continuous and
+                # takes the default side, so unrestricted cell geometry (CellVolume, Jacobian, normal, ...) is accepted
+                raise Violation("invalid program accepted: unrestricted cell geometry, lowered to reference gradients of x "
+                                "before the restrictions are checked, silently takes the default side",
+                                {"kind": "accepted-missing:lowered-geometry", "known": "F26"})
             raise Violation("invalid program accepted: " + ("nested restriction" if double else "unrestricted side-dependent terminal"),
                             {"kind": "accepted-double" if double else "accepted-missing"})
         return {"nontrivial": True, "labels": labels + ["invalid:double" if double else "invalid:missing"]}
